@@ -26,12 +26,18 @@ import subprocess
 import sys
 
 HEADLINE = ("TwistedProps.C15.stream_accounting / connectionLost_at_most_once / no_data_after_connectionLost / "
-            "loseConnection_clean_close / loseConnection_delivers_written / halfClose_clean_close / abortConnection_close")
+            "close_never_forgotten / done_from_doWrite_is_connectionLost / "
+            "loseConnection_clean_close / loseConnection_delivers_written / halfClose_clean_close / abortConnection_close / "
+            "closeFromDataReceived_clean_close_partial")
 RULE = ("sim: schedules over {write, writeSequence, loseConnection, loseWriteConnection, abortConnection, pause, resume, "
         "readiness reports (IN/OUT/HUP bits, kernel byte counts incl. 0), delayed calls} on a fake kernel with tiny SEND_LIMIT/"
         "recv size/queue capacity; disciplined templates (lose / half-close with reply / abort, either side) with noise, "
-        "and undisciplined soups; real: loopback connections on 4 reactors in subprocesses, closer = client|server, "
-        "close kind lose|half|abort, sizes 0..256 KiB (4 MiB thorough), small socket buffers, reader pauses; "
+        "request/response templates (the peer writes requests; the closer replies from dataReceived at byte thresholds and calls "
+        "loseConnection / loseWriteConnection / abortConnection RE-ENTRANTLY from dataReceived when the last request byte "
+        "arrives — directed variants report IN|OUT in one event while a reply is still pending), protocol scripts for "
+        "dataReceived / readConnectionLost / writeConnectionLost (any transport call), and undisciplined soups; real: loopback connections on 4 reactors in subprocesses, closer = client|server, "
+        "close kind lose|half|abort, sizes 0..256 KiB (4 MiB thorough), small socket buffers, reader pauses, plus "
+        "request/response runs closing from dataReceived; "
         "distinct = (mode, template/reactor, close kind, half-closeable flags, outcome reasons, size class)")
 ASSUMES = [
     "the Linux TCP stack and the select/poll/epoll/asyncio doIteration loops refine the kernel + poller of the model "
@@ -46,7 +52,14 @@ ASSUMES = [
     "reading when the close is issued; a half-closeable protocol reacts to readConnectionLost with loseConnection "
     "(half-close: with writes, then loseConnection); SEND_LIMIT, recv size and queue capacity > 0 (otherwise TCP itself "
     "resets the connection or nothing can move — not a Twisted behaviour)",
-    "protocol callbacks do not raise; no TLS, no producers (C14)",
+    "close issued from dataReceived (closeFromDataReceived_clean_close_partial): the closing situation RR is a hypothesis "
+    "on the state reached (requester flushed and silent, its last bytes unread in the responder's queue, the responder's "
+    "last dataReceived reaction = writes then loseConnection, armed for exactly that total); that a request/response "
+    "pre-phase establishes RR is NOT proved (tested: the rr templates; the oracle reads the expected bytes/reasons off "
+    "the case).  half-close / abort issued from dataReceived: safety theorems + tie + oracle only",
+    "protocol callbacks do not raise; the select/asyncio dispatch (one doRead or one doWrite per call) is the "
+    "single-bit special case of the modelled poll/epoll dispatch and is tied by the real-socket runs only; "
+    "no TLS, no producers (C14)",
 ]
 TRUSTED = ["harness fake kernel/poller in corr/C15.py (Python twin of kSend/kRecv/kShutWr/kClose/hupCond of the model)",
            "CPython socket module + Linux loopback TCP for the real-socket runs"]
@@ -54,7 +67,12 @@ MANIFEST = {
     "text": "Lean theorems (TwistedProps/C15.lean) over ALL schedules of readiness reports, partial send/recv sizes, delayed "
             "calls and application calls on a model of tcp.Connection + FileDescriptor + _doReadOrWrite/_disconnectSelectable "
             "over a kernel socket pair: delivered bytes are always a prefix of the bytes written, connectionLost at most once "
-            "per side, nothing delivered after it (no discipline assumed). Under the one-closer discipline (either side "
+            "per side, nothing delivered after it, a pending loseConnection always keeps its writer registered and the CONNECTION_DONE "
+            "of the doWrite part of any report (IN|OUT included) is dispatched as connectionLost(ConnectionDone) — for ANY protocol "
+            "behaviour, re-entrant transport calls from dataReceived / readConnectionLost / writeConnectionLost included (no "
+            "discipline assumed). Close requested from dataReceived (request/response): from the closing situation RR, one IN|* "
+            "report then any reports → quiescent, ConnectionDone once on both sides, all bytes both ways (partial: RR assumed "
+            "of the pre-phase). Under the one-closer discipline (either side "
             "closing, any pre-close writes/pauses/readiness noise, any post-close noise): no RST is ever generated, FIN is "
             "sent only after the flush, the peer closes only after EOF, nothing is discarded, pending bytes imply a "
             "registered writer; a progress measure strictly decreases over every fair round, so runFair reaches quiescence, "
@@ -64,7 +82,8 @@ MANIFEST = {
             "side and exactly one reason on the other after abortConnection (reader holds a prefix). The same conclusions "
             "hold in any quiescent state a disciplined schedule reaches. Model tied to the code by step-by-step "
             "differential runs on a fake kernel and by real loopback runs on four reactors in subprocesses.",
-    "note": "safety and liveness/clean-close halves both proved in Lean; ASSUMED (tested by the real-socket runs, not "
+    "note": "safety (all protocol behaviours) and liveness/clean-close (one-closer discipline) proved in Lean; close from "
+            "dataReceived proved from the closing situation on (pre-phase assumed, `_partial`); ASSUMED (tested by the real-socket runs, not "
             "proved): Linux TCP and the four doIteration loops refine the model's kernel/poller; trusts Lean kernel, the "
             "hand-written model, the harness fake kernel",
     "technique": "Lean 4 invariants over all schedules + phase invariants and a progress measure under the discipline + differential tie (fake kernel, real dispatch code) + real-socket runs",
@@ -148,14 +167,17 @@ def make_protocols():
     from twisted.internet.protocol import Protocol
 
     class Plain(Protocol):
-        def __init__(self, onrl=()):
+        def __init__(self, cfg=None):
+            cfg = cfg or {}
             self.received = bytearray()
             self.lost = []
             self.late = 0
             self.readLost = 0
             self.writeLost = 0
             self.written = []
-            self.onrl = list(onrl)
+            self.onrl = list(cfg.get("onrl", []))
+            self.ondata = [[int(t), list(ops)] for t, ops in cfg.get("ondata", [])]
+            self.onwl = list(cfg.get("onwl", []))
             self.on_lost = None
             self.on_data = None
 
@@ -163,6 +185,12 @@ def make_protocols():
             if self.lost:
                 self.late += 1
             self.received += data
+            # re-entrant transport calls from inside dataReceived (twin of `dataReceived` in Tcp.lean): the ops
+            # of every leading entry whose threshold is reached, once
+            while self.ondata and len(self.received) >= self.ondata[0][0]:
+                _, ops = self.ondata.pop(0)
+                for tok in ops:
+                    apply_op(self.transport, tok, self.written)
             if self.on_data:
                 self.on_data(self)
 
@@ -184,6 +212,8 @@ def make_protocols():
             if self.lost:
                 self.late += 1
             self.writeLost += 1
+            for tok in self.onwl:
+                apply_op(self.transport, tok, self.written)
 
     return Plain, Half
 
@@ -303,7 +333,7 @@ class Sim:
         self.p, self.t = {}, {}
         for s in "AB":
             cfg = case["cfg"][s]
-            self.p[s] = (Half if cfg["half"] else Plain)(cfg.get("onrl", []))
+            self.p[s] = (Half if cfg["half"] else Plain)(cfg)
             t = tcp.Server(self.k[s], self.p[s], ("127.0.0.1", 1), None, 1, self.reactor)
             t.SEND_LIMIT = sl
             t.bufferSize = rm
@@ -421,7 +451,7 @@ def worker_main(name):
 
         def mk(role):
             cfg = case["cfgC"] if role == roleC else case["cfgP"]
-            p = (Half if cfg["half"] else Plain)(cfg.get("onrl", []))
+            p = (Half if cfg["half"] else Plain)(cfg)
             protos[role] = p
             p.on_lost = lost
             p.role = role
@@ -482,6 +512,8 @@ def worker_main(name):
                     p.transport.resumeProducing()
             pr.on_data = on_data
             steps = list(case["steps"])
+            # request/response cases: the PEER runs the steps (requests); the closer only reacts from dataReceived
+            actor = pr if case.get("rr") else c
 
             def go():
                 while steps:
@@ -489,8 +521,8 @@ def worker_main(name):
                     if st[0] == "d":
                         reactor.callLater(st[1], go)
                         return
-                    if not c.lost:
-                        apply_op(c.transport, st[1], c.written)
+                    if not actor.lost:
+                        apply_op(actor.transport, st[1], actor.written)
             go()
 
         def lost(p):
@@ -652,9 +684,18 @@ def run_impl(c):
 
 
 def _cfg_tok(cfg):
+    od = "/".join(f"{int(t)}=" + ("+".join(ops) or "-") for t, ops in cfg.get("ondata", [])) or "-"
     if not cfg["half"]:
-        return "p:-"
-    return "h:" + ("+".join(cfg.get("onrl", [])) or "-")
+        return "p:-:" + od + ":-"
+    return "h:" + ("+".join(cfg.get("onrl", [])) or "-") + ":" + od + ":" + ("+".join(cfg.get("onwl", [])) or "-")
+
+
+def _ops_bytes(ops):
+    return b"".join(b"".join(op_bytes(t) or []) for t in ops)
+
+
+def _ondata_bytes(cfg):
+    return b"".join(_ops_bytes(ops) for _, ops in cfg.get("ondata", []))
 
 
 def model_line(c):
@@ -670,7 +711,7 @@ def model_line(c):
             phases.append(cur)
             cur = []
         else:
-            cur.append("aA:" + st[1])
+            cur.append(("aB:" if c.get("rr") else "aA:") + st[1])
     phases.append(cur)
     return ("fair 1073741824,1073741824,1073741824 " + f"{_cfg_tok(c['cfgC'])} {_cfg_tok(c['cfgP'])} "
             + " ".join("+".join(ph) or "-" for ph in phases))
@@ -716,7 +757,8 @@ def oracle(c, out):
     if int(extra.get("late", "0")):
         return {"key": "data-after-connectionLost", "detail": out[-300:]}
     if c["mode"] == "sim":
-        last = main.split(" ")[0].split(";")[-1]
+        states = main.split(" ")[0].split(";")
+        last = states[-1]
         ta, tb = last.split("|")
         la, lb = ta.split("/")[4].replace("-", ""), tb.split("/")[4].replace("-", "")
         kv = dict(x.split("=", 1) for x in main.split(" ")[1:])
@@ -727,16 +769,21 @@ def oracle(c, out):
         if not wa.startswith(rb) or not wb.startswith(ra):
             return {"key": "not-a-prefix", "detail": f"A wrote {wa.hex()} B got {rb.hex()}; B wrote {wb.hex()} A got {ra.hex()}"}
         exp = c.get("expect", "any")
+        halfkind = c.get("tpl") == "half" or (c.get("tpl") == "rr" and c.get("kind") == "H")
         if exp == "orderly":
             if (la, lb) != ("D", "D"):
                 return {"key": "orderly-close-reasons", "detail": f"connectionLost A={la or '-'} B={lb or '-'} (expected D, D)"}
-            # what each side writes is read off the CASE (closer: its write events; a half-closeable peer of a
-            # half-close: its reply, once) — not off what the run happened to do
+            # what each side writes is read off the CASE (its write events; every dataReceived reaction — an orderly
+            # template arms them so that all fire; a half-closeable peer of a half-close: its reply, once) — not
+            # off what the run happened to do
             W = c["closer"]
             R = "B" if W == "A" else "A"
-            want = {W: b"".join(b"".join(op_bytes(e[3:]) or []) for e in c["events"] if e.startswith("a" + W + ":")), R: b""}
-            if c.get("tpl") == "half" and c["cfg"][R]["half"]:
-                want[R] = b"".join(b"".join(op_bytes(t) or []) for t in c["cfg"][R].get("onrl", []))
+            want = {}
+            for s_ in "AB":
+                want[s_] = b"".join(b"".join(op_bytes(e[3:]) or []) for e in c["events"] if e.startswith("a" + s_ + ":"))
+                want[s_] += _ondata_bytes(c["cfg"][s_])
+            if halfkind and c["cfg"][R]["half"]:
+                want[R] += _ops_bytes(c["cfg"][R].get("onrl", []))
             if rb != want["A"] or ra != want["B"]:
                 return {"key": "bytes-missing", "detail": f"A should write {want['A'].hex()} B got {rb.hex()}; "
                                                           f"B should write {want['B'].hex()} A got {ra.hex()}"}
@@ -745,6 +792,16 @@ def oracle(c, out):
             lw, lr = (la, lb) if w == "A" else (lb, la)
             if lw != "X" or len(lr) != 1:
                 return {"key": "abort-reasons", "detail": f"closer {lw or '-'} peer {lr or '-'}"}
+        # "connectionLost is called exactly once ... after loseConnection": a transport on which loseConnection was
+        # called (disconnecting), which is not being aborted, whose protocol was not told, and which is NOT registered
+        # for writing any more can never complete the close — no event will ever call its connectionLost
+        for i, st in enumerate(states):
+            for who, t in zip("AB", st.split("|")):
+                f, lost = t.split("/")[0], t.split("/")[4]
+                if f[2] == "1" and f[6] == "0" and f[7] == "1" and f[8] == "0" and lost == "-":
+                    return {"key": "close-never-completes",
+                            "detail": f"after event {i} ({c['events'][i]}): {who} has loseConnection pending, socket open, "
+                                      f"connectionLost not called, but no writer registered — state {t}"}
         return None
     # real
     toks = main.split(" ")
@@ -761,10 +818,12 @@ def oracle(c, out):
     else:
         if (la, lb) != ("D", "D"):
             return {"key": "orderly-close-reasons", "detail": f"closer {la} peer {lb} on {c['reactor']} kind {c['kind']}"}
-        want_a = b"".join(b"".join(op_bytes(st[1]) or []) for st in c["steps"] if st[0] == "o")
-        want_b = b""
+        stepped = b"".join(b"".join(op_bytes(st[1]) or []) for st in c["steps"] if st[0] == "o")
+        # request/response: the peer runs the steps, the closer writes only from dataReceived (all reactions fire)
+        want_a = _ondata_bytes(c["cfgC"]) if c.get("rr") else stepped
+        want_b = stepped if c.get("rr") else b""
         if c["kind"] == "H" and c["cfgP"]["half"]:
-            want_b = b"".join(b"".join(op_bytes(t) or []) for t in c["cfgP"].get("onrl", []))
+            want_b += _ops_bytes(c["cfgP"].get("onrl", []))
         if fb["recv"] != digest(want_a) or fa["recv"] != digest(want_b):
             return {"key": "bytes-missing", "detail": f"peer should get {len(want_a)} bytes, closer {len(want_b)}: " + main[:300]}
     return None
@@ -775,11 +834,14 @@ def tag(c, out):
         main = out.split(" ")[0]
         last = main.split(";")[-1] if ";" in main or "|" in main else "?"
         reasons = "/".join(t.split("/")[4] for t in last.split("|")) if "|" in last else "?"
-        return (f"sim:{c.get('tpl', 'soup')}:{int(c['cfg']['A']['half'])}{int(c['cfg']['B']['half'])}:"
+        tpl = c.get('tpl', 'soup') + (c.get("kind", "") if c.get("tpl") == "rr" else "")
+        react = "".join(str(int(bool(c["cfg"][s_].get(k)))) for s_ in "AB" for k in ("ondata", "onwl"))
+        return (f"sim:{tpl}:{int(c['cfg']['A']['half'])}{int(c['cfg']['B']['half'])}:r{react}:"
                 f"{reasons}:p{min(c['params'])}")
     n = sum(len(b) for st in c["steps"] if st[0] == "o" for b in (op_bytes(st[1]) or []))
     size = 0 if n == 0 else len(str(n))
-    return f"real:{c['reactor']}:{c['closer']}:{c['kind']}:{int(c['cfgC']['half'])}{int(c['cfgP']['half'])}:s{size}:{out[:1] == '!'}"
+    return (f"real{'-rr' if c.get('rr') else ''}:{c['reactor']}:{c['closer']}:{c['kind']}:"
+            f"{int(c['cfgC']['half'])}{int(c['cfgP']['half'])}:s{size}:{out[:1] == '!'}")
 
 
 # ------------------------------------------------------------------------------- generators
@@ -862,6 +924,98 @@ def gen_template(rng):
     return {"mode": "sim", "tpl": tpl, "closer": W, "expect": expect, "params": _params(rng), "cfg": cfg, "events": ev}
 
 
+def _nonempty_write_tok(rng, ctr, maxlen=9):
+    if rng.random() < 0.75:
+        return "w" + _hex(_rand_bytes(rng, ctr, rng.choice([1, 1, 2, 3, 5, maxlen])))
+    chunks = [_rand_bytes(rng, ctr, rng.choice([0, 1, 2, 4])) for _ in range(rng.randint(1, 3))]
+    if not any(chunks):
+        chunks.append(_rand_bytes(rng, ctr, 1))
+    return "q" + ",".join(_hex(x) for x in chunks)
+
+
+def gen_rr(rng):
+    """request/response, the close is issued RE-ENTRANTLY from dataReceived: the peer P writes requests (application
+    calls); the closer W only reacts — its dataReceived writes replies at byte thresholds and, when the last request
+    byte has arrived (threshold = total bytes P ever writes, so nothing is unread or in flight towards W), writes a
+    last reply and calls loseConnection / loseWriteConnection / abortConnection.  `directed` shapes the schedule so
+    that W still has a reply pending (writer registered) when the last request arrives and reports IN|OUT in ONE
+    readiness event with room to flush everything — the close then completes inside the event that requested it."""
+    kind = rng.choice(["L", "L", "L", "H", "X"])
+    W = rng.choice("AB")
+    P = "B" if W == "A" else "A"
+    ctrW, ctrP = [rng.randrange(200)], [100 + rng.randrange(100)]
+    directed = rng.random() < 0.5
+    reqs = [_nonempty_write_tok(rng, ctrP) for _ in range(rng.randint(1, 4))]
+    sizes = [len(b"".join(op_bytes(t))) for t in reqs]
+    total = sum(sizes)
+    if directed:
+        cuts = []
+        acc = 0
+        for n in sizes:
+            acc += n
+            cuts.append(acc)
+    else:
+        cuts = sorted(set(rng.randint(1, total) for _ in range(rng.randint(0, 3))) | {total})
+    trig = []
+    for t in cuts[:-1]:
+        ops = [_write_tok(rng, ctrW) for _ in range(rng.choice([0, 1, 1, 2]))]
+        if directed and not any(op_bytes(o) and b"".join(op_bytes(o)) for o in ops):
+            ops.append(_nonempty_write_tok(rng, ctrW))     # a reply stays pending: the writer is registered
+        trig.append([t, ops])
+    trig.append([total, [_write_tok(rng, ctrW) for _ in range(rng.choice([0, 1, 1, 2]))] + [kind]])
+    wl = ["R"] if rng.random() < 0.3 else []
+    cfg = {W: {"half": rng.random() < 0.7, "onrl": ["L"], "ondata": trig, "onwl": wl}}
+    phalf = rng.random() < 0.5
+    reply = [_write_tok(rng, ctrP) for _ in range(rng.randint(0, 2))] if (kind == "H" and phalf) else []
+    cfg[P] = {"half": phalf, "onrl": reply + ["L"]}
+    for s in "AB":
+        if not cfg[s]["half"]:
+            cfg[s] = {"half": False, **({"ondata": cfg[s]["ondata"]} if "ondata" in cfg[s] else {})}
+    ev = []
+    if directed:
+        params = [rng.choice([16, 64, 64]), rng.choice([16, 64]), rng.choice([32, 64])]
+        for i, r in enumerate(reqs):
+            ev.append(f"a{P}:{r}")
+            ev.append(f"i{P}:o:{BIG}:{BIG}")
+            if rng.random() < 0.3:
+                ev += _noise(rng, 1)
+            last = i == len(reqs) - 1
+            bits = "io" if (last or rng.random() < 0.3) else "i"
+            if rng.random() < 0.2:
+                bits += "h"
+            ev.append(f"i{W}:{bits}:{BIG}:{rng.choice([BIG, BIG, BIG, 2])}")
+    else:
+        params = _params(rng)
+        paused = {"A": False, "B": False}
+        for r in reqs:
+            ev.append(f"a{P}:{r}")
+            ev += _noise(rng, rng.randint(0, 5))
+            if rng.random() < 0.25:
+                s = rng.choice("AB")
+                ev.append(f"a{s}:" + ("R" if paused[s] else "P"))
+                paused[s] = not paused[s]
+        # nobody stays paused: the closer must see the last request, the peer the replies and the EOF
+        for s in "AB":
+            if paused[s]:
+                ev.append(f"a{s}:R")
+    ev += _noise(rng, rng.randint(0, 8))
+    ev.append("D")
+    return {"mode": "sim", "tpl": "rr", "kind": kind, "closer": W, "expect": "abort" if kind == "X" else "orderly",
+            "params": params, "cfg": cfg, "events": ev}
+
+
+def _soup_reactions(rng, ctr):
+    """random dataReceived / writeConnectionLost scripts (any op, close operations included)"""
+    od = []
+    t = 0
+    for _ in range(rng.choice([0, 1, 1, 2, 3])):
+        t += rng.choice([0, 1, 1, 2, 3, 5])
+        ops = [rng.choice(["L", "L", "H", "X", "R", "P", _write_tok(rng, ctr), _write_tok(rng, ctr)])
+               for _ in range(rng.randint(0, 3))]
+        od.append([max(t, 1), ops])
+    return od
+
+
 def gen_soup(rng):
     ctr = {"A": [rng.randrange(200)], "B": [rng.randrange(200)]}
     cfg = {}
@@ -869,8 +1023,13 @@ def gen_soup(rng):
         if rng.random() < 0.5:
             onrl = [rng.choice(["L", "L", "H", "X", "R", "P", _write_tok(rng, ctr[s])]) for _ in range(rng.randint(0, 3))]
             cfg[s] = {"half": True, "onrl": onrl}
+            if rng.random() < 0.5:
+                cfg[s]["onwl"] = [rng.choice(["L", "L", "H", "X", "R", "P", _write_tok(rng, ctr[s])])
+                                  for _ in range(rng.randint(0, 2))]
         else:
             cfg[s] = {"half": False}
+        if rng.random() < 0.5:
+            cfg[s]["ondata"] = _soup_reactions(rng, ctr[s])
     ev = []
     for _ in range(rng.randint(1, 40)):
         r = rng.random()
@@ -939,6 +1098,42 @@ def gen_real(rng, reactor, tier, big=False):
             "pauses": pauses, "bufs": [b, rng.choice([16384, 32768, 65536])], "timeout": 10 if tier == "quick" else 40}
 
 
+def gen_real_rr(rng, reactor, tier):
+    """request/response on a real connection: the peer writes the requests; the closer replies from dataReceived and
+    closes from dataReceived when the last request byte has arrived"""
+    kind = rng.choice(["L", "L", "H", "X"])
+    closer = rng.choice(["client", "server"])
+    sizes = [1, 100, 4096, 20000, 70000]
+    steps, seed, total = [], rng.randrange(251), 0
+    cuts = []
+    for _ in range(rng.randint(1, 3)):
+        n = rng.choice(sizes)
+        steps.append(["o", f"g{seed}.{n}"])
+        seed = (seed + n) % 251
+        total += n
+        cuts.append(total)
+        if rng.random() < 0.5:
+            steps.append(["d", rng.choice([0, 0.001, 0.01])])
+    trig, rs = [], rng.randrange(251)
+    for t in cuts[:-1]:
+        n = rng.choice([1, 100, 5000, 70000])
+        trig.append([t, [f"g{rs}.{n}"]])
+        rs = (rs + n) % 251
+    last = [f"g{rs}.{rng.choice([1, 100, 5000, 70000])}"] if rng.random() < 0.7 else []
+    trig.append([total, last + [kind]])
+    cfgC = {"half": rng.random() < 0.7, "onrl": ["L"], "ondata": trig}
+    phalf = rng.random() < 0.6
+    reply = [f"g{rng.randrange(251)}.{rng.choice([0, 1, 5000, 70000])}"] if (kind == "H" and phalf) else []
+    cfgP = {"half": phalf, "onrl": reply + ["L"]}
+    if not cfgC["half"]:
+        cfgC = {"half": False, "ondata": trig}
+    if not cfgP["half"]:
+        cfgP = {"half": False}
+    b = rng.choice([2048, 4096, 16384])
+    return {"mode": "real", "rr": True, "reactor": reactor, "closer": closer, "kind": kind, "steps": steps, "cfgC": cfgC,
+            "cfgP": cfgP, "pauses": [], "bufs": [b, rng.choice([16384, 65536])], "timeout": 10 if tier == "quick" else 40}
+
+
 def corpus():
     P = {"half": False}
     HL = {"half": True, "onrl": ["L"]}
@@ -956,6 +1151,50 @@ def corpus():
         # misuse: half-close twice, resume after EOF on a half-closeable protocol
         {"mode": "sim", "tpl": "soup", "expect": "any", "params": [8, 4, 8], "cfg": {"A": {"half": True, "onrl": []}, "B": HL},
          "events": ["aA:w01", "aA:H", "D", "aA:H", "D", "aB:R", "D", "aA:R", "D", "aA:L", "D"]},
+        # --- close requested RE-ENTRANTLY from dataReceived (request/response) ---------------------------------
+        # the C15-2 witness: a half-closeable server still has reply "one" pending (writer registered) when request 2
+        # arrives; ONE readiness event reports IN|OUT; dataReceived writes "two" and calls loseConnection; the doWrite
+        # of the same event flushes everything and answers CONNECTION_DONE — that is connectionLost(ConnectionDone),
+        # not a read-side half-close
+        {"mode": "sim", "tpl": "rr", "kind": "L", "closer": "B", "expect": "orderly", "params": [64, 16, 32],
+         "cfg": {"A": P, "B": {"half": True, "onrl": ["L"], "ondata": [[1, ["w6f6e65"]], [2, ["w74776f", "L"]]], "onwl": []}},
+         "events": ["aA:w41", f"iA:o:{BIG}:{BIG}", f"iB:i:{BIG}:{BIG}", "aA:w42", f"iA:o:{BIG}:{BIG}", f"iB:io:{BIG}:{BIG}", "D"]},
+        # the same with a bare loseConnection() (no last reply), HUP bit proposed too, closer on side A, peer half-closeable
+        {"mode": "sim", "tpl": "rr", "kind": "L", "closer": "A", "expect": "orderly", "params": [64, 16, 32],
+         "cfg": {"A": {"half": True, "onrl": ["L"], "ondata": [[2, ["w0102030405"]], [3, ["L"]]], "onwl": []}, "B": HL},
+         "events": ["aB:w0a0b", f"iB:o:{BIG}:{BIG}", f"iA:i:{BIG}:{BIG}", "aB:w0c", f"iB:o:{BIG}:{BIG}", f"iA:ioh:{BIG}:{BIG}", "D"]},
+        # plain closer (control), tiny kernel: the flush needs several events
+        {"mode": "sim", "tpl": "rr", "kind": "L", "closer": "B", "expect": "orderly", "params": [2, 2, 3],
+         "cfg": {"A": HL, "B": {"half": False, "ondata": [[1, ["w6f6e65"]], [3, ["q74,776f", "L"]]]}},
+         "events": ["aA:w414243", "iA:o:2:2", "iB:io:1:1", "iB:io:5:5", "D"]},
+        # half-close from dataReceived; writeConnectionLost resumes; the peer replies from readConnectionLost
+        {"mode": "sim", "tpl": "rr", "kind": "H", "closer": "B", "expect": "orderly", "params": [64, 16, 32],
+         "cfg": {"A": {"half": True, "onrl": ["w0a0b0c", "L"]},
+                 "B": {"half": True, "onrl": ["L"], "ondata": [[1, ["w01"]], [2, ["w0203", "H"]]], "onwl": ["R"]}},
+         "events": ["aA:w41", f"iA:o:{BIG}:{BIG}", f"iB:i:{BIG}:{BIG}", "aA:w42", f"iA:o:{BIG}:{BIG}", f"iB:io:{BIG}:{BIG}", "D"]},
+        # abortConnection from dataReceived with OUT in the same event (doWrite is a no-op on an aborting transport)
+        {"mode": "sim", "tpl": "rr", "kind": "X", "closer": "B", "expect": "abort", "params": [64, 16, 32],
+         "cfg": {"A": P, "B": {"half": True, "onrl": ["L"], "ondata": [[1, ["w01"]], [2, ["w0203", "X"]]], "onwl": []}},
+         "events": ["aA:w41", f"iA:o:{BIG}:{BIG}", f"iB:i:{BIG}:{BIG}", "aA:w42", f"iA:o:{BIG}:{BIG}", f"iB:io:{BIG}:{BIG}", "D"]},
+        # siblings (safety only): loseConnection from writeConnectionLost (needs _writeDisconnected set BEFORE the
+        # handler runs); loseWriteConnection + loseConnection from one dataReceived with IN|OUT; pause from dataReceived
+        {"mode": "sim", "tpl": "soup", "expect": "any", "params": [64, 16, 32],
+         "cfg": {"A": {"half": True, "onrl": ["L"], "onwl": ["w09", "L"]}, "B": P},
+         "events": ["aA:w0102", "aA:H", f"iA:io:{BIG}:{BIG}", "D"]},
+        {"mode": "sim", "tpl": "soup", "expect": "any", "params": [64, 16, 32],
+         "cfg": {"A": P, "B": {"half": True, "onrl": [], "ondata": [[1, ["w01", "H", "L", "w02"]]], "onwl": ["H"]}},
+         "events": ["aB:w07", "aA:w41", f"iA:o:{BIG}:{BIG}", f"iB:io:{BIG}:{BIG}", f"iB:io:{BIG}:{BIG}", "D"]},
+        {"mode": "sim", "tpl": "soup", "expect": "any", "params": [2, 1, 4],
+         "cfg": {"A": {"half": False, "ondata": [[1, ["P", "w0102"]], [2, ["R", "L"]]]}, "B": P},
+         "events": ["aB:w414243", f"iB:o:{BIG}:{BIG}", f"iA:io:{BIG}:{BIG}", f"iA:io:{BIG}:{BIG}", "aA:R", f"iA:io:{BIG}:{BIG}", "D"]},
+        {"mode": "real", "rr": True, "reactor": "poll", "closer": "server", "kind": "L",
+         "steps": [["o", "g1.1"], ["d", 0.01], ["o", "g2.1"]],
+         "cfgC": {"half": True, "onrl": ["L"], "ondata": [[1, ["g7.3"]], [2, ["g9.3", "L"]]]}, "cfgP": P, "pauses": [],
+         "bufs": [4096, 16384], "timeout": 10},
+        {"mode": "real", "rr": True, "reactor": "epoll", "closer": "server", "kind": "L",
+         "steps": [["o", "g1.100"], ["o", "g2.4096"]],
+         "cfgC": {"half": True, "onrl": ["L"], "ondata": [[100, ["g7.70000"]], [4196, ["L"]]]}, "cfgP": HL, "pauses": [],
+         "bufs": [4096, 16384], "timeout": 10},
         {"mode": "real", "reactor": "select", "closer": "client", "kind": "L", "steps": [["o", "g1.70000"], ["o", "L"]],
          "cfgC": P, "cfgP": P, "pauses": [[1000, 0.005]], "bufs": [4096, 4096], "timeout": 10},
         {"mode": "real", "reactor": "epoll", "closer": "server", "kind": "H", "steps": [["o", "g9.200000"], ["o", "H"]],
@@ -969,12 +1208,16 @@ def corpus():
 
 def generate(rng, tier):
     n_sim = 1200 if tier == "quick" else 10000
-    n_real = 5 if tier == "quick" else 20          # per reactor
+    n_real = 3 if tier == "quick" else 14          # per reactor
+    n_rr = 2 if tier == "quick" else 8             # per reactor: close issued from dataReceived
     for i in range(n_sim):
-        yield gen_template(rng) if rng.random() < 0.55 else gen_soup(rng)
+        x = rng.random()
+        yield gen_template(rng) if x < 0.35 else gen_rr(rng) if x < 0.65 else gen_soup(rng)
     for r in REACTORS:
         for i in range(n_real):
             yield gen_real(rng, r, tier)
+        for i in range(n_rr):
+            yield gen_real_rr(rng, r, tier)
         if tier == "thorough":
             yield gen_real(rng, r, tier, big=True)
 
@@ -983,12 +1226,20 @@ def shrink(c):
     if c["mode"] != "sim":
         steps = c["steps"]
         for i in range(len(steps) - 1):
+            if c.get("rr") and steps[i][0] != "d":      # request/response: the thresholds are tied to the requests
+                continue
             yield dict(c, steps=steps[:i] + steps[i + 1:])
         if c.get("pauses"):
             yield dict(c, pauses=[])
         return
     ev = c["events"]
     soup = c.get("tpl", "soup") == "soup"
+    if c.get("tpl") == "rr":
+        # the thresholds are tied to the requests: only readiness reports / timers may go
+        for i in range(len(ev)):
+            if ev[i][0] in "it":
+                yield dict(c, events=ev[:i] + ev[i + 1:])
+        return
     for i in range(len(ev)):
         # a template's expectation is only justified while its discipline stands: keep the close op, the
         # pause/resume pairs and the final drain; drop noise (readiness reports, timers) and writes
@@ -1000,10 +1251,12 @@ def search(rng, tier, disagreeing):
     """property-directed: disciplined templates only (every one carries an exact expectation), many seeds,
     plus real runs of every close kind on every reactor."""
     for _ in range(3000 if tier == "quick" else 30000):
-        yield gen_template(rng)
+        yield gen_template(rng) if rng.random() < 0.5 else gen_rr(rng)
     for r in REACTORS:
-        for _ in range(6):
+        for _ in range(4):
             yield gen_real(rng, r, tier)
+        for _ in range(3):
+            yield gen_real_rr(rng, r, tier)
 
 
 if __name__ == "__main__":
